@@ -5,9 +5,11 @@ Core Lean only.
 -/
 namespace GS.RespMgr
 
-/-- how the response table is keyed -/
+/-- how the response table is keyed / how a caller addresses a response:
+    by request ID only, by (peer, ID), or — for the message subscriber's closer calls — by request ID
+    plus the identity of the response the subscriber was created for -/
 inductive KeyKind where
-  | requestId | peerAndId
+  | requestId | peerAndId | ownResponse
 deriving DecidableEq, Repr
 
 /-- type of an incoming request -/
@@ -22,11 +24,30 @@ inductive Handler where
   | new | abort | update
 deriving DecidableEq, Repr
 
+/-- an operand of the comparison inside a peer guard: the sender of the message or the peer field of
+    the table entry found under the request's ID -/
+inductive PeerTerm where
+  | sender | entryPeer
+deriving DecidableEq, Repr
+
+/-- how a guard finds the table entry it inspects -/
+inductive KeyTerm where
+  | requestId      -- `table[request.ID()]`
+deriving DecidableEq, Repr
+
+/-- a peer guard as written in the source:
+    `e, ok := table[<key>]; ok && <lhs> != <rhs>`  ⇒ the request is skipped -/
+structure PeerGuard where
+  key : KeyTerm
+  lhs : PeerTerm
+  rhs : PeerTerm
+deriving DecidableEq, Repr
+
 structure DispatchCase where
   typ : ReqType
   handler : Handler
-  /-- a request whose ID is in the table for *another* peer is skipped before this handler runs -/
-  peerGuard : Bool
+  /-- the guard (at loop, case or handler level) that runs before the handler, if any -/
+  guard : Option PeerGuard
 deriving Repr
 
 end GS.RespMgr
